@@ -74,6 +74,13 @@ def main():
     sh("git -C /repo worktree add -q --detach %s HEAD" % wt)
     thr = prop == "C18"
     demo_extra = ld
+    mm = re.search(r"EXTRA-FLAGS demo%s:\s*([^\n]*)" % n, notes)
+    if mm and not ld:
+        demo_extra = mm.group(1).strip().strip("`")
+        meta["demo_build"] = "gcc -O1 -g %s demo.c -I <tree> -I <build> <build>/libjson-c.a -lm -lpthread" % demo_extra
+    if prop == "C14":
+        os.environ["LOCPATH"] = "/tmp/seed/locale"
+        meta["demo_env"] = "LOCPATH=<dir containing the synthesised xx_XX locale> (./vf setup builds it under /verif/build/locale)"
     try:
         ok0, t0 = build_and_test(wt, wt + "_b", thr)
         d0 = run_demo(demo, wt, wt + "_b", demo_extra) if os.path.exists(demo) else (None, "no demo")
